@@ -30,9 +30,15 @@ int main(int argc, char** argv)
     const CommandLine cmd(argc,argv,"Compute various head matrices [options] geometry");
     const bool use_old_ordering = cmd.option("-old-ordering", false,"Using old ordering i.e using (V1, p1, V2, p2, V3) instead of (V1, V2, V3, p1, p2)");
 
-    if (argc<2 || cmd.help_mode()) {
+    if (cmd.help_mode()) {
         help(argv[0]);
         return 0;
+    }
+
+    if (argc<2) {
+        std::cerr << "Not enough arguments." << std::endl;
+        help(argv[0]);
+        return 1;
     }
 
     cmd.print();
